@@ -143,6 +143,10 @@ def pairs(tier):
         cd = f"{cl} ::= CLASS {{ &id INTEGER (0..{P1}) UNIQUE, &flag BOOLEAN OPTIONAL, &Type }}"
         add(f"class-field component [{cl}]", cd, f"Mm ::= SEQUENCE {{ i {cl}.&id, f {cl}.&flag OPTIONAL }}", f"Mm ::= SEQUENCE {{ i INTEGER (0..{P1}), f BOOLEAN OPTIONAL }}", nonneg)
         add(f"class-field top-level [{cl}]", cd, f"Mm ::= {cl}.&id", f"Mm ::= INTEGER (0..{P1})", nonneg)
+        # a further subtype constraint on the field reference is applied serially to the field's type
+        add(f"class-field component with a further constraint [{cl}]", cd, f"Mm ::= SEQUENCE {{ i {cl}.&id (0..3), t NULL }}", f"Mm ::= SEQUENCE {{ i INTEGER (0..{P1}) (0..3), t NULL }}", lambda v: [v[0] >= 3])
+        add(f"class-field set component with a further constraint [{cl}]", cd, f"Mm ::= SET {{ i {cl}.&id (2..MAX) }}", f"Mm ::= SET {{ i INTEGER (0..{P1}) (2..MAX) }}", lambda v: [v[0] >= 2])
+        add(f"class-field top-level with a further constraint [{cl}]", cd, f"Mm ::= {cl}.&id (1..2)", f"Mm ::= INTEGER (0..{P1}) (1..2)", lambda v: [v[0] >= 2])
     # ---- compositions: the expanded-in part itself contains a reference that has to be linked afterwards
     up = f"upper INTEGER ::= {P1}"
     for cn in ('C', 'Zc'):
@@ -165,6 +169,32 @@ def pairs(tier):
         add(f"composed parameterized value-ref argument [{pn}]", tv, f"Mm ::= {pn} {{upper}}", f"Mm ::= INTEGER (0..{P1})", nonneg)
         tt = f"{up} {pn} {{T}} ::= SEQUENCE {{ a T }}"
         add(f"composed parameterized constrained-type argument [{pn}]", tt, f"Mm ::= {pn} {{INTEGER (0..upper)}}", f"Mm ::= SEQUENCE {{ a INTEGER (0..{P1}) }}", nonneg)
+    # ---- every notation at every POSITION of a constructed type (the gate predicates and the resolvers of the linker recurse over the
+    # containers separately - has_choice_selection_type vs link_choice_selection_type etc. - and must agree on every container kind)
+    notations = {
+        'selection': (f"Cz ::= CHOICE {{ a INTEGER (0..{P1}), b BOOLEAN }}", "a < Cz", f"INTEGER (0..{P1})"),
+        'class-field': (f"CLZ ::= CLASS {{ &id INTEGER (0..{P1}) UNIQUE, &Type }}", "CLZ.&id", f"INTEGER (0..{P1})"),
+        'parameterized': ("Pz {INTEGER: v} ::= INTEGER (0..v)", f"Pz {{{P1}}}", f"INTEGER (0..{P1})"),
+        'value-ref': (f"upper INTEGER ::= {P1}", "INTEGER (0..upper)", f"INTEGER (0..{P1})"),
+    }
+    positions = {
+        'set component': "Mm ::= SET {{ s {X}, t NULL }}",
+        'choice alternative': "Mm ::= CHOICE {{ s {X}, t NULL }}",
+        'optional component': "Mm ::= SEQUENCE {{ s {X} OPTIONAL, t NULL }}",
+        'sequence-of element': "Mm ::= SEQUENCE OF {X}",
+        'set-of element': "Mm ::= SET OF {X}",
+        'sequence in sequence': "Mm ::= SEQUENCE {{ i SEQUENCE {{ s {X} }}, t NULL }}",
+        'set in sequence': "Mm ::= SEQUENCE {{ i SET {{ s {X} }}, t NULL }}",
+        'set in choice': "Mm ::= CHOICE {{ i SET {{ s {X} }}, t NULL }}",
+        'choice in set': "Mm ::= SET {{ i CHOICE {{ s {X}, u NULL }}, t NULL }}",
+        'sequence-of in sequence': "Mm ::= SEQUENCE {{ i SEQUENCE OF {X}, t NULL }}",
+        'set in set-of': "Mm ::= SET OF SET {{ s {X} }}",
+    }
+    for nn, (common, sug, exp) in notations.items():
+        for pn, tpl in positions.items():
+            if tier == 'quick' and nn == 'value-ref' and pn in ('optional component', 'sequence in sequence', 'choice alternative'):
+                continue        # covered by the value-ref family above
+            add(f"position {nn} as {pn}", common, tpl.format(X=sug), tpl.format(X=exp), nonneg)
     # ---- two notations inside ONE definition (each expansion step must leave what the other one still needs)
     for tag_, (cl, bn, cn, pn) in (('a', ('CLS', 'B', 'C', 'P')), ('z', ('ZCLS', 'Zb', 'Zc', 'Zp'))):
         defs = (f"{cl} ::= CLASS {{ &id INTEGER (0..{P1}) UNIQUE, &Type }} {bn} ::= SEQUENCE {{ x INTEGER (0..255), y BOOLEAN }} "
